@@ -1511,3 +1511,81 @@ def c06_k(ctx):
         ctx.check(ok, m, 'state predicate `{}`'.format(nm), pats[0],
                   '`{}` is not defined as `{}`'.format(nm, pats[0]), fn=m,
                   node=rr[0] if rr else m.node)
+
+
+@obligation('C06-l', 'T1 T10', 'rows are changed through the map only when no appended rows are '
+            'outstanding: an overwrite first brings the header up to date with the data',
+            floor=1,
+            necessary='the map writes through to the file at once, the header only with the next '
+                      'flush: killed after append + overwrite, the file would show the overwritten '
+                      'row without the appended ones, which is the content of no instant')
+def c06_l(ctx):
+    cls = ctx.cls(NPY)
+    hwriters = set()
+    for m in cls.methods.values():
+        for c in ctx.calls(m, name='write'):
+            if c.args and is_fs(ctx.term(m, c.func.value)) and \
+                    contains(ctx.term(m, c.args[0]), 'self._header_bytes_to_write'):
+                hwriters.add(m.qname)
+    if not hwriters:
+        raise AnchorMissing('no method writes _header_bytes_to_write to the file')
+
+    def reaches_writer(fn, call, depth=0):
+        for t in ctx.cg.resolve(fn, call):
+            if t.qname in hwriters:
+                return True
+            if depth < 2 and any(reaches_writer(t, c2, depth + 1) for c2 in ctx.calls(t)):
+                return True
+        return False
+
+    def fs_flushes(fn):
+        return [c for c in ctx.calls(fn, name='flush') if is_fs(ctx.term(fn, c.func.value))]
+
+    def syncs(fn, call):
+        # the call is a file flush that follows a header write in fn itself, or a call of a
+        # method in which every header write is followed by a file flush
+        if call in fs_flushes(fn):
+            hw = [c for c in ctx.calls(fn) if reaches_writer(fn, c)]
+            return bool(hw) and ctx.must_precede(fn, hw, call)
+        for t in ctx.cg.resolve(fn, call):
+            hw = [c for c in ctx.calls(t) if reaches_writer(t, c)]
+            ff = fs_flushes(t)
+            if hw and ff and all(ctx.must_follow(t, h, ff) for h in hw):
+                return True
+        return False
+
+    pend = _self_attr('_header_bytes_to_write')
+    n = 0
+    for m in cls.methods.values():
+        ex = ctx.ex(m)
+        sts = [s for pat in ('self.memmap[_]', 'self._memmap[_]')
+               for (s, t, k) in ctx.stores(m, pat, include_mutators=False)
+               if isinstance(s, (ast.Assign, ast.AugAssign))]
+        if not sts:
+            continue
+        cfg = cfg_of(m)
+        wn = [ctx.node(m, c) for c in ctx.calls(m) if syncs(m, c)]
+        assumed = []
+        for t in cfg.nodes:
+            if t.kind != 'test' or t.ast is None:
+                continue
+            tt = ex.term(t.ast, t)
+            if tt == pend or match(tt, pattern('self._header_bytes_to_write is not None')) \
+                    is not None:
+                assumed.append((t, True))
+            elif tt == ('not', pend) or match(
+                    tt, pattern('self._header_bytes_to_write is None')) is not None:
+                assumed.append((t, False))
+        for s in sts:
+            n += 1
+            sn = ctx.node(m, s)
+            free = cfg.exists_path_assuming(cfg.entry, sn, avoiding=wn, assumed=assumed)
+            ctx.check(not free, m, 'overwrite through the map after the header is current',
+                      'every path to the store passes a header write + flush while prepared '
+                      'header bytes are outstanding',
+                      '`{}` changes rows of the file through the map on a path on which rows '
+                      'appended since the last flush are not yet described by the header'.format(
+                          src(s)[:60]), fn=m, node=s, anchors=[w.ast for w in wn
+                                                               if w.ast is not None])
+    if n == 0:
+        raise AnchorMissing('no NpyArray method stores through the memory map')
